@@ -39,6 +39,18 @@ func newPickEnv(c *Ctx) *pickEnv {
 		switch parts[1] {
 		case "holding":
 			fmt.Fprintf(w, "W%s", parts[0])
+		case "holdingq": // holds the ware for requests carrying the address's query string only
+			if r.URL.Query().Get("token") == "s3cr3t" {
+				fmt.Fprintf(w, "W%s", parts[0])
+			} else {
+				w.WriteHeader(404)
+			}
+		case "holdingu": // … the address's userinfo only
+			if _, pw, ok := r.BasicAuth(); ok && pw == "s3cr3t" {
+				fmt.Fprintf(w, "W%s", parts[0])
+			} else {
+				w.WriteHeader(404)
+			}
 		case "servererror":
 			// the failing blob: 5xx at the ware's own address, 404 for anything the server does not know
 			if len(parts) == 2 || (len(parts) == 5 && parts[4] == pickHash) {
@@ -115,6 +127,15 @@ func (e *pickEnv) mk(i int, scheme, cond string) string {
 		c := cond
 		if c == "missingdir" {
 			c = "lacking"
+		}
+		// every part of the address belongs to it: a third of the holders is reached through a query string, a third through userinfo
+		if c == "holding" && base == e.srv.URL {
+			switch e.n % 3 {
+			case 1:
+				return scheme + strings.TrimPrefix(base, "http") + "/" + id + "/holdingq?token=s3cr3t"
+			case 2:
+				return scheme + "://user:s3cr3t@" + strings.TrimPrefix(base, "http://") + "/" + id + "/holdingu"
+			}
 		}
 		return scheme + strings.TrimPrefix(base, "http") + "/" + id + "/" + c
 	case "other":
